@@ -249,12 +249,14 @@ PROPS = {
         "rule": "G_prog well-typed programs (any order of declarations, nested array types, reference parameters, nested control flow, "
                 "layouts with comments): SPECDIAG (implementation publishes no diagnostic; the independent Lean static-semantics "
                 "specification Spec/Typing.lean over the independent grammar derivation confirms well-typedness), NEW (tree with every "
-                "diagnostic, table, published byte ranges: implementation vs model); per program 3 single-fault variants out of 29 rule "
+                "diagnostic, table, published byte ranges: implementation vs model); per program 3 single-fault variants out of 34 fault "
                 "classes (all 27 build/semantic message kinds except MainIsMissing, unary minus on a non-integer, missing ';' and ')'), "
                 "each a template statement/declaration inserted without removing anything: JUDGEFAULT (exactly the expected rule is "
                 "reported, on a range overlapping the culprit tokens, and no other rule). " + TEXT_RULE,
-        "unproved_parts": ["welltyped_no_diagnostics (Typing.wellTyped p -> diagnostics = []) and the per-rule fault theorems are evaluated "
-                           "(SPECDIAG/JUDGEFAULT) on the implementation, with the model tied by NEW; not yet theorems",
+        "unproved_parts": ["PROVED for the model: welltyped_analysis_identity / welltyped_diagnostics (every tree the typing specification "
+                           "accepts passes table::build and table::analyze unchanged, so its diagnostics are exactly the parser's); NOT yet "
+                           "theorems: that the parser attaches no diagnostic to a syntactically valid text (C04's conformance, compared by "
+                           "SPECPARSE/SPECDIAG on every run) and the per-rule fault theorems (JUDGEFAULT on the implementation, model tied by NEW)",
                            "MainIsMissing has no construct to lie on and is not injected"],
     },
     "C01": {
